@@ -160,6 +160,15 @@ def handle (j : Json) : Except String Json := do
     let nats := fun (l : List Nat) => Json.arr (l.map (fun (n : Nat) => Json.num (JsonNumber.fromNat n))).toArray
     return Json.mkObj [("kept", nats res.kept), ("complete", Json.bool res.complete),
       ("calls", Json.arr (res.calls.map (fun c => Json.mkObj [("j", nats c.j), ("flipped", Json.bool c.flipped), ("ans", nats c.ans)])).toArray)]
+  if b == "findBlocked" then
+    -- find_blocked_reactions around its two external computations: first solution and ranges in, reported reactions out
+    let sol ← ratsOf j "sol"
+    let lo ← ratsOf j "lo"
+    let hi ← ratsOf j "hi"
+    let res := BlockedM.blocked (← ratOf j "cut") (fun i => sol.getD i 0) (fun i => (lo.getD i 0, hi.getD i 0)) (← natsOf j "req")
+    let fva := BlockedM.toFva (← ratOf j "cut") (fun i => sol.getD i 0) (← natsOf j "req")
+    return Json.mkObj [("blocked", Json.arr (res.map (fun (n : Nat) => Json.num (JsonNumber.fromNat n))).toArray),
+      ("to_fva", Json.arr (fva.map (fun (n : Nat) => Json.num (JsonNumber.fromNat n))).toArray)]
   if b == "resettable" then
     -- a bound setter under `resettable` inside one context: the assignments, then `__exit__`
     let vals ← (← (← j.getObjVal? "vals").getArr?).toList.mapM (fun x => do
